@@ -390,7 +390,7 @@ structure AndroidKeyRules (W : World) (st : AttStmt) (authDataRaw : Cbor) (cdj c
     -- x5c carries its own root last; the rest must chain to it, and it must be a trusted root
     x5c.getLast? = some rootDer ∧ W.x509Load rootDer = some rootCert ∧
     ChainChecked W x5c.dropLast [Root.pem rootCert.pem] ∧
-    rootCert.pem ∈ rpPemsOf roots ++ ((builtinRootNames.lookup "android-key").getD []).map W.builtinPem ∧
+    rootCert.pem ∈ (rpPemsOf roots ++ ((builtinRootNames.lookup "android-key").getD []).map W.builtinPem).filterMap W.pemCanon ∧
     x5c = leaf :: rest ∧ W.x509Load leaf = some cert ∧
     SigChecked W cert.key alg st.sig (ad ++ W.sha256 cdj) ∧
     decodeCose credKey = .ok key ∧ coseToPubKey key = .ok pk ∧ W.keyLoad pk = true ∧ cert.spki = W.spki pk ∧
@@ -405,7 +405,7 @@ theorem android_key {W : World} {st : AttStmt} {adRaw : Cbor} {cdj credKey : Byt
   unfold verifyAndroidKey at h
   simp only [runM_reject_ok, runM_reject_ok', runM_liftE_ok, validateChainReg_bind_ok, loadCert_bind_ok, runM_sha256M_bind,
     loadCoseKey_bind_ok, runM_spkiM_bind, x5c_head, someOr_ok, verifySignatureC_bind_ok, runM_keyDescriptionM_bind,
-    builtinPemsM_bind_ok] at h
+    builtinPemsM_bind_ok, pemCanonsM_bind_ok] at h
   obtain ⟨_, halg, _, x5c, hx5c, rootDer, hlast, rootCert, hrootCert, hchain, hmem, data, hdata, leaf, ⟨rest, hrest⟩,
     cert, hcert, hs, key, hkey, pk, ⟨hpk, hload⟩, hspki, _, kdDer, hkd, kd, hkdv, hchal, hsw, htee, horigin, hpurpose⟩ := h
   obtain ⟨alg, halg', _⟩ := cborTruthy_some (by simpa using halg)
